@@ -165,8 +165,11 @@ def handle_downlink_macs(c, res):
                 n = inner
                 if n[0] == 'agg' and n[1].endswith('Option::Some'):
                     n = n[2][0][1]
-                g = any(cond_true(x) and x[0][0] == 'call' and x[0][1].endswith('is_some') and term_contains(x[0], lambda y: isinstance(y, tuple) and y[:1] == ('call',)
-                        and y[1].endswith('Configuration::' + validity) and term_contains(y[2][1], lambda z: z == n)) for x in cs)
+                def validated(x):
+                    k_ = rules.option_known(x)
+                    return k_ is not None and k_[1] and isinstance(k_[0], tuple) and k_[0][:1] == ('call',) and k_[0][1].endswith('Configuration::' + validity) \
+                        and term_contains(k_[0][2][1], lambda z: z == n)
+                g = any(validated(x) for x in cs)
                 src = n[0] == 'call' and n[1].endswith(getter)
                 if not (g and src):
                     okd = False
